@@ -244,6 +244,27 @@ def run(facts, tier):
             t5.violate("cmp/extra", f"prec_climb::climb1 compares precedences differently than the algorithm: {got}", where=fn["sp"])
     rules.append(t5.finish())
 
+    # ---------------- T15.6 `@fmt "..."` in key position keeps its format
+    t6 = Rule("T15.6", "a format-prefixed string used as a key (`{@base64 \"k\\(f)\": v}`, `.@uri \"..\"`) is parsed into a string term carrying that format, like in term position", floor=2)
+    fn = facts.hir_find(r"^jaq_core::load::parse::Parser::<.*>::str_key$", "jaq_core")
+    if len(fn) != 1:
+        t6.missing_anchor("Parser::str_key")
+    else:
+        strs = [n for n in find(fn[0]["body"], lambda n: n.get("k") == "Call" and (strip(n["f"]).get("path") or {}).get("def") == "jaq_core::load::parse::Term::Str")]
+        with_fmt = 0
+        for n in strs:
+            a0 = strip(n["args"][0])
+            is_none = a0.get("k") == "Path" and str(a0["path"].get("def", "")).endswith("Option::None")
+            if not is_none:
+                with_fmt += 1
+        fmt_tokens = [p for p in find(fn[0]["body"], lambda n: n.get("k") in ("Path", "TupleStruct") and str((n.get("path") or {}).get("def", "")).endswith("lex::Tok::Fmt"))]
+        ok = with_fmt >= 1 and bool(fmt_tokens)
+        t6.examined("str_key", True, {"string_terms_built": len(strs), "carrying_a_format": with_fmt, "format_tokens_matched": len(fmt_tokens)})
+        t6.examined("str_key-none", True)
+        if not ok:
+            t6.violate("fmt-dropped", "str_key recognises a format token but never builds a string term that carries it: `{@base64 \"k\\(f)\": v}` would behave like a plain string", where=fn[0]["sp"])
+    rules.append(t6.finish())
+
     explanation = ("Decided as finite tables extracted from the typed HIR by pattern semantics and constant folding (no parsing is executed): precedence chain, associativity, token->operator map, "
                    "the `as` right-extension hook and the comparisons of the climbing loop. Not decided: the lexer (comments, whitespace, continuation lines), atoms/postfix binding, patterns, sugar expansions.")
     return finish("C15", "other", rules, t0, tier, explanation, ["the manual's precedence table as quoted in the property statement"])
